@@ -23,6 +23,7 @@ EXTENDS Future, Json, IOUtils
 TraceLog == ndJsonDeserialize(IOEnv.TRACE)
 TraceWorkers == {"w0", "w1", "w2", "w3"}
 TraceNTs == <<"nt0", "nt1", "nt2", "nt3", "nt4", "nt5", "nt6", "nt7">>
+TraceThreadNames == {}      \* (Next is not used by the trace specification)
 
 VARIABLE l
 tvars == <<vars, l>>
